@@ -35,15 +35,25 @@ def cases(draw):
         # pause between two submissions of one thread (virtual seconds): several hand-overs to the transport instead of one batch
         subs.append({"msgs": msgs, "api": draw(st.sampled_from(["send_message", "send_message", "send_messages"])),
                      "gap": draw(st.sampled_from([0, 0, 0.004, 0.011, 0.03]))})
-    pw = draw(st.sampled_from(["full", "full", "tiny", "random", "boundary"]))
+    pw = draw(st.sampled_from(["full", "full", "tiny", "random", "boundary", "chunks"]))
     sizes = []
+    if pw == "chunks":
+        # large partial writes: the unsent remainder stays big (above 64 KiB for the large messages) over several rounds
+        sizes = draw(st.lists(st.sampled_from([1000, 20000, 65536, 100000]), min_size=1, max_size=8))
     if pw == "tiny":
-        sizes = draw(st.lists(st.sampled_from([1, 2, 3, 7]), min_size=3, max_size=40))
+        sizes = draw(st.lists(st.sampled_from([1, 2, 3, 7]), min_size=8, max_size=40))
     elif pw == "random":
         sizes = draw(st.lists(st.integers(1, 5000), min_size=1, max_size=20))
-    inbound = draw(st.lists(st.sampled_from(["dwr", "app"]), max_size=3))
+    inbound = draw(st.lists(st.sampled_from(["dwr", "app", "app"]), max_size=3))
+    # inbound data becomes readable only after the node's k-th send() call (0 = at once): it is then read while a partial
+    # write's remainder may still be pending
+    inbound_after = 0
+    if inbound and draw(st.integers(0, 2)):
+        # while partial writes are still going on when there are any
+        inbound_after = draw(st.integers(1, max(1, min(len(sizes) - 2, 12)))) if len(sizes) > 2 else draw(st.sampled_from([1, 2, 3]))
     sched = draw(conc.schedules(300))
     return {"role": draw(st.sampled_from(["client", "server"])), "subs": subs, "pw": pw, "sizes": sizes, "inbound": inbound,
+            "inbound_after": inbound_after,
             "sched": sched, "lines": draw(st.booleans()) if sched else False, "holds": draw(conc.holds(bias="submitter")),
             "gen2": draw(st.sampled_from([None, None, None, "local-close", "peer-fin", "peer-fin-mid-message"]))}
 
@@ -113,13 +123,27 @@ def run_one(case):
             return run
         for si in range(len(msgs)):
             w.call(f"submitter-{si}", submitter(si))
-        n_dwr = 0
-        for i, kind in enumerate(case["inbound"]):
-            if kind == "dwr":
-                n_dwr += 1
-                w.feed(peer_dwr(9000 + i, 9100 + i))
-            else:
-                w.feed(app_request(9200 + i, 9300 + i, dest_realm=LOCAL["realm"]))
+        n_dwr = sum(1 for kind in case["inbound"] if kind == "dwr")
+        base_calls = len(sock.send_calls)
+
+        def feed_inbound():
+            k_ = case.get("inbound_after", 0)
+            if k_:
+                # after every submitter has returned (nothing will re-arm the write interest later), the first submitted bytes
+                # have reached the socket, and k more send() calls
+                heads = [lst[0][:20] for lst in expected if lst]
+                w.sched.point("peer.wait", pred=lambda: len(done) >= len(msgs) and any(h in bytes(sock.outbox[-70000:]) for h in heads), timeout=5.0)
+                c0 = len(sock.send_calls)
+                w.sched.point("peer.wait", pred=lambda: len(sock.send_calls) - c0 >= k_, timeout=3.0)
+            for i, kind in enumerate(case["inbound"]):
+                if kind == "dwr":
+                    w.feed(peer_dwr(9000 + i, 9100 + i))
+                else:
+                    w.feed(app_request(9200 + i, 9300 + i, dest_realm=LOCAL["realm"]))
+        if case.get("inbound_after", 0):
+            w.call("peer-writer", feed_inbound)
+        else:
+            feed_inbound()
         total = sum(len(x) for lst in expected for x in lst)
 
         def written():
@@ -209,6 +233,8 @@ def _collect(shard, seed, n):
     def body(case):
         vs, info = run_one(case)
         f = {"role=" + case["role"], f"submitters={len(case['subs'])}", "pw=" + case["pw"]}
+        if case.get("inbound_after"):
+            f.add("inbound-arrives-after-k-sends")
         if any(s_.get("gap") and len(s_["msgs"]) > 1 and s_["api"] == "send_message" for s_ in case["subs"]):
             f.add("staggered-submissions")
         if info.get("partial_writes"):
